@@ -9,7 +9,7 @@ PROOF_MODULE = "Nlmodel.Proofs.C10"
 PROOF_FILES = ["Nlmodel/Proofs/C10.lean", "Nlmodel/Model/Compiler.lean", "Nlmodel/Model/VM.lean", "Nlmodel/Model/Value.lean"]
 THEOREM_FILE = PROOF_FILES[0]
 LEVEL_TEXT = ("Lean theorems: each fused <Op>LocalConst instruction has exactly the effect of GetLocal; Const; <Op> with the operands in the same order; the compiler model fuses only `local op literal` or `literal op local` with a mirrored operator; mirroring is sound for an integer literal and ANY other operand (c op x = x op' c on all value types, including the error cases); adding a constant never disturbs existing constant-pool entries and returns the index of an equal constant. Tied to compiler.rs/vm.rs by (a) comparing the real eval with the definitional semantics on every program and each of its four variants (top-level code moved into a function, a literal replaced by a variable, mirrored comparisons, prepended literal statements), (b) metamorphic comparison of the variants on the implementation alone, and (c) byte-for-byte comparison of the real bytecode and constant pool with the compiler model as a diagnostic tier. Transfer to the machine: C01_same_meaning_same_behaviour (Proofs/C01): two texts that pass the stage-5 validation and have the same definitional answer get the same answer from eval for every large enough budget, however differently they were compiled.")
-LEVEL_NOTE = ("Trusted: Lean kernel; the compiler model is tied to compiler.rs by correspondence (bytecode equality is a diagnostic: a harmless code-generation change shows up there only, recorded as model-drift in evidence). The transfer of spec-level equalities to the machine relies on C01.")
+LEVEL_NOTE = ("Trusted: Lean kernel; the compiler model is tied to compiler.rs by correspondence (bytecode equality is a diagnostic: a harmless code-generation change shows up there only, recorded as model-drift in evidence). The transfer of spec-level equalities to the machine is a theorem wherever C01 is: C01_same_meaning_same_behaviour (validated stage-5 programs) and C01_same_meaning_same_behaviour_with_functions (every pair of texts in the syntactic stage-6 fragment - functions, calls, heap values: whatever differs in how the compiler implemented them - global or local variable, literal or variable operand, mirrored operand order, constant pools - eval gives both the same answer if the definitional semantics does, or one of them stops at the machine's stack limit).")
 TECHNIQUE = "Lean 4 proof (fused-opcode equivalence, mirroring, constant pool) + metamorphic variants on the real interpreter"
 RULE = ("generated closed programs x 4 variants (wrap top-level code in a function; replace an integer literal by a fresh variable; "
         "mirror `c op x` to `x op' c`; prepend statements mentioning the same and other literals), directed operator/operand-order "
